@@ -50,11 +50,12 @@ type monitor struct {
 	hasLatest   bool
 	readsOK     int
 	deletedLogs map[int][]entry // logs of the removed nodes at the moment a swap deleted them
+	diskLost    map[int][]entry // node -> the log it held when it lost its disk (latest loss)
 }
 
 func newMonitor(c *cluster) *monitor {
 	return &monitor{c: c, blStarted: map[int64]int{}, leaders: map[int64]int{}, termLog: map[int64][]entry{}, termEns: map[int64][]int{},
-		termRemoved: map[int64][]int{}, removedLogs: map[int64]map[int][]entry{}, commitSeen: map[int64]int64{}, committed: map[int64][]entry{}, deletedLogs: map[int][]entry{}}
+		termRemoved: map[int64][]int{}, removedLogs: map[int64]map[int][]entry{}, commitSeen: map[int64]int64{}, committed: map[int64][]entry{}, deletedLogs: map[int][]entry{}, diskLost: map[int][]entry{}}
 }
 
 func (m *monitor) opOf(vid int) *op {
@@ -174,6 +175,9 @@ func (m *monitor) onRolledBack(l, f int, term int64, before, after []entry) {
 				break
 			}
 			e := pre[i]
+			if m.diskConsequence("commit:committed-entry-lost", i, e) {
+				return
+			}
 			if e.term < t {
 				m.c.violate("figure8:old-term-entry-committed-by-count-then-overwritten", fmt.Sprintf(
 					"entry %s (written in term %d) was counted as committed at offset %d by leader %d of term %d (no entry of term %d covered it) and served; leader %d of term %d (head of a higher term) truncated it off follower %d",
@@ -333,6 +337,58 @@ func (m *monitor) onAckEmitted(l, f int, term, off int64) {
 
 func (m *monitor) onAckDelivered(l, f int, term, off int64) {}
 func (m *monitor) onDeleted(n int, lg []entry)              { m.deletedLogs[n] = lg }
+
+// onDiskLoss: the node lost its disk; what it held is remembered (longest log over its losses) so that a later loss
+// of data can be attributed to it or not.
+func (m *monitor) onDiskLoss(n int, lg []entry) {
+	if old, ok := m.diskLost[n]; !ok || len(lg) >= len(old) {
+		m.diskLost[n] = lg
+	}
+}
+
+// lostWithDisk: did a node that lost its disk hold this entry at that offset when it lost it?
+func (m *monitor) lostWithDisk(i int, e entry) (int, bool) {
+	var ns []int
+	for x := range m.diskLost {
+		ns = append(ns, x)
+	}
+	sort.Ints(ns)
+	for _, x := range ns {
+		dl := m.diskLost[x]
+		if i < len(dl) && dl[i].term == e.term && dl[i].vid == e.vid {
+			return x, true
+		}
+	}
+	return 0, false
+}
+
+// majorityKeepsDisk: "a majority of the shard's ensemble keeps its disk" for the current ensemble.
+func (m *monitor) majorityKeepsDisk() (bool, []int, []int) {
+	ens := m.c.ids(m.c.lastMeta.Ensemble)
+	keep := 0
+	var lost []int
+	for _, x := range ens {
+		if _, l := m.diskLost[x]; l {
+			lost = append(lost, x)
+		} else {
+			keep++
+		}
+	}
+	return len(ens) < 2*keep, lost, ens
+}
+
+// diskConsequence: a committed / served entry is missing and a node that lost its disk held it: consequence of the
+// disk loss (the acknowledged-write verdict is given by checkAcked), not an independent finding.
+func (m *monitor) diskConsequence(sig string, i int, e entry) bool {
+	if _, ok := m.lostWithDisk(i, e); !ok {
+		return false
+	}
+	violMu.Lock()
+	m.c.diskSoft = true
+	m.c.secondary = append(m.c.secondary, sig+"(after-disk-loss)")
+	violMu.Unlock()
+	return true
+}
 func (m *monitor) onCrash(n int)                            {}
 func (m *monitor) onOpFailed(o *op)                         {}
 
@@ -390,6 +446,21 @@ func (m *monitor) afterStep() {
 			}
 		}
 		if len(ens) > 0 && cnt < len(ens)/2+1 {
+			// copies that went away with a disk are not the protocol's doing: if the prefix was on a quorum counting
+			// the nodes that held it when they lost their disk, this is the (already judged) disk loss, not a new finding
+			lostHolders := 0
+			for x, dl := range m.diskLost {
+				if contains(ens, x) && !contains(holders, x) && samePrefix(dl, pre, len(pre)) {
+					lostHolders++
+				}
+			}
+			if lostHolders > 0 && cnt+lostHolders >= len(ens)/2+1 {
+				c.stats["diskloss:commit-quorum-includes-lost-disk"]++
+				violMu.Lock()
+				c.diskSoft = true
+				violMu.Unlock()
+				continue
+			}
 			sig := "commit:not-on-quorum"
 			detail := fmt.Sprintf("term %d: leader %d advanced its commit offset to %d but only nodes %v of the ensemble %v (+ removed %v) hold that prefix %s",
 				term, n.id, co, holders, ens, m.termRemoved[term], logTok(pre))
@@ -446,6 +517,9 @@ func (m *monitor) onLeader(n int, term int64) {
 		pre := m.committed[t]
 		if i := firstDiff(pre, lg); i >= 0 {
 			e := pre[i]
+			if m.diskConsequence("commit:committed-entry-lost", i, e) {
+				continue
+			}
 			if e.term < t {
 				c.violate("figure8:old-term-entry-committed-by-count-then-overwritten", fmt.Sprintf(
 					"entry %s (written in term %d) was counted as committed at offset %d by leader %d of term %d (no entry of term %d covered it), that leader served it; leader %d of term %d has log %s: the entry is gone",
@@ -479,6 +553,9 @@ func (m *monitor) onLeader(n int, term int64) {
 		}
 		if i := firstDiff(r.prefix, lg); i >= 0 {
 			e := r.prefix[i]
+			if m.diskConsequence("read:rolled-back-data", i, e) {
+				continue
+			}
 			if e.term < r.servTerm {
 				c.violate("figure8:old-term-entry-committed-by-count-then-overwritten", fmt.Sprintf(
 					"%s served by node %d in term %d returned %s, which rests on entry %s at offset %d (an entry of the older term %d, never acknowledged to its writer, committed by counting copies); leader %d of term %d has log %s: the data was rolled back",
@@ -519,6 +596,23 @@ func (m *monitor) checkAcked(n int, term int64, lg []entry) {
 				sig = "swap:committed-copy-only-on-removed-node"
 				detail += fmt.Sprintf("; the removed node %d answered NewTerm(%d) with a log containing it, counted for the majority, not as a candidate", x, term)
 				break
+			}
+		}
+		if sig == "acked-write-lost" {
+			if x, ok := m.lostWithDisk(int(a.off), entry{term: a.term, vid: a.vid}); ok {
+				okMaj, lost, ens := m.majorityKeepsDisk()
+				if !okMaj {
+					// more than a minority of the ensemble lost its disk: the property's clause does not apply
+					violMu.Lock()
+					c.diskSoft = true
+					violMu.Unlock()
+					c.stats["diskloss:write-lost-after-majority-lost-disks(no-verdict)"]++
+					c.event("note: %s is lost after nodes %v of the ensemble %v lost their disks (no majority kept its disk: no verdict)", a.o, lost, ens)
+					continue
+				}
+				sig = "diskloss:acked-write-lost-after-minority-disk-loss"
+				detail += fmt.Sprintf("; the write was acknowledged with a copy on node %d, which then lost its disk and came back empty (nodes that lost a disk: %v, a strict minority of the ensemble %v: a majority kept its disk); the fresh node answered NewTerm with head (-1,-1) like a node that never held anything and counted for the election's majority",
+					x, lost, ens)
 			}
 		}
 		if sig == "acked-write-lost" && len(m.termRemoved[term]) > 0 {
